@@ -173,8 +173,16 @@ class Fn:
         self.params = rec.get("params", [])
         self.raw_body = rec["body"]
         nb = normalize(rec["body"])
-        self.body, wrapped_async = _strip_wrappers(nb)
+        self.full_body, wrapped_async = _strip_wrappers(nb)
         self.is_async = bool(rec.get("is_async")) or wrapped_async
+        # async fn bodies are `{ let p = p; ...; { user body } }`: expose the user body, keep the rebinding lets
+        # reachable through full_body for binding discovery.
+        self.body = self.full_body
+        b = self.full_body
+        if b["k"] == "block" and "expr" in b and b["expr"]["k"] == "block" and b.get("stmts") and all(
+                st["k"] == "slet" and st["pat"]["k"] == "pbind" and "init" in st and st["init"]["k"] == "var"
+                for st in b["stmts"]):
+            self.body = b["expr"]
         self._parents = None
         self._alias = None
         self.file = self.sp.rsplit(":", 2)[0]
@@ -183,7 +191,7 @@ class Fn:
     def parents(self):
         if self._parents is None:
             pm = {}
-            stack = [self.body]
+            stack = [self.full_body]
             while stack:
                 x = stack.pop()
                 for c in ir.children(x):
@@ -200,7 +208,7 @@ class Fn:
             yield cur
 
     def nodes(self):
-        return ir.walk(self.body)
+        return ir.walk(self.full_body)
 
     def loc(self, n=None):
         return (n or {}).get("sp", self.sp)
